@@ -119,4 +119,75 @@ def stream (blk : Block) : Except Wire.Err Bytes :=
     | .ok t => .ok (h ++ t)
 
 end Block
+
+/-! ## a `Block` object over time: public attributes can be reassigned, `hash()` keeps a cache attribute -/
+
+/-- header fields, transactions, and the instance attribute `_Block__hash` (`none` = not set) -/
+structure BlockObj where
+  hdr : Header
+  txs : List Tx
+  cache : Option Bytes
+  deriving Repr
+
+inductive HdrField | version | prev | root | timestamp | difficulty | nonce
+  deriving DecidableEq, Repr
+
+inductive ObjStep
+  | hash | id | asBin | streamHeader
+  | setNonce (n : Int)                       -- `set_nonce(n)`
+  | setInt (f : HdrField) (v : Int)          -- `blk.<field> = v`
+  | setBytes (f : HdrField) (b : Bytes)
+  | asBlockheader                            -- continue with `as_blockheader()`
+
+namespace BlockObj
+open Pycoin.Gen.Messages (block_hash_hasattr block_set_nonce_hasattr block_hash_attr)
+
+/-- `hasattr(self, name)` as far as the cache attribute is concerned: string literals are not name-mangled, so only
+the literal mangled name finds what `self.__hash = …` stored -/
+def hasattrHash (o : BlockObj) (name : List Char) : Bool := name == block_hash_attr && o.cache.isSome
+
+/-- `hash()`: `if not hasattr(self, <lit>): self.__hash = self._calculate_hash()`; `return self.__hash` -/
+def hash (o : BlockObj) : Except Wire.Err (Bytes × BlockObj) :=
+  if !(o.hasattrHash block_hash_hasattr) then
+    match Block.hash o.hdr with
+    | .error e => .error e
+    | .ok h => .ok (h, { o with cache := some h })
+  else
+    match o.cache with
+    | some h => .ok (h, o)
+    | none => .error .attributeError
+
+/-- `set_nonce(nonce)`: `self.nonce = nonce; if hasattr(self, <lit>): del self.__hash` -/
+def setNonce (o : BlockObj) (n : Int) : BlockObj :=
+  let o := { o with hdr := { o.hdr with nonce := n } }
+  if o.hasattrHash block_set_nonce_hasattr then { o with cache := none } else o
+
+def setInt (o : BlockObj) (f : HdrField) (v : Int) : BlockObj :=
+  match f with
+  | .version => { o with hdr := { o.hdr with version := v } }
+  | .timestamp => { o with hdr := { o.hdr with timestamp := v } }
+  | .difficulty => { o with hdr := { o.hdr with difficulty := v } }
+  | .nonce => { o with hdr := { o.hdr with nonce := v } }
+  | _ => o
+
+def setBytes (o : BlockObj) (f : HdrField) (b : Bytes) : BlockObj :=
+  match f with
+  | .prev => { o with hdr := { o.hdr with prev := b } }
+  | .root => { o with hdr := { o.hdr with merkleRoot := b } }
+  | _ => o
+
+/-- the state after a step (answers are produced by `hash` / `Block.stream…` on the state before it) -/
+def step (o : BlockObj) : ObjStep → BlockObj
+  | .hash | .id => match o.hash with | .ok (_, o') => o' | .error _ => o
+  | .asBin | .streamHeader => o
+  | .setNonce n => o.setNonce n
+  | .setInt f v => o.setInt f v
+  | .setBytes f b => o.setBytes f b
+  | .asBlockheader => { hdr := o.hdr, txs := [], cache := none }
+
+def run (o : BlockObj) : List ObjStep → BlockObj
+  | [] => o
+  | s :: ss => run (o.step s) ss
+
+end BlockObj
 end Pycoin
